@@ -201,7 +201,9 @@ ActLists ==
     <<ASetvar(KS, "add", <<Lit(s_0)>>)>>,                       \* adding zero to a counter that does not exist yet creates it
     <<ASetvar(KS, "sub", <<Lit(s_0)>>), ASetvar(KN, "add", <<Mac("TX", s_s)>>)>>,
     \* an assignment whose expanded value happens to be negative is still an assignment
-    <<ASetvar(KN, "set", <<Lit(s_2)>>), ASetvar(KN, "set", <<Mac("TX", s_neg)>>)>> }
+    <<ASetvar(KN, "set", <<Lit(s_2)>>), ASetvar(KN, "set", <<Mac("TX", s_neg)>>)>>,
+    \* %{rule.msg} is the message of the rule that runs the action (rule 5 has one, rule 10 has none)
+    <<ASetvar(KS, "set", <<Lit(s_x), Mac("RULE", <<109, 115, 103>>), Lit(s_x)>>)>> }
 \* one counter per matched target: the key is built from MATCHED_VAR_NAME
 PerTargetActs == { <<ASetvar(<<Lit(s_c_), Mac("MATCHED_VAR_NAME", << >>)>>, "add", <<Lit(s_1)>>)>>,
                    <<ASetvar(<<Lit(s_c_), Mac("MATCHED_VAR_NAME", << >>)>>, "add", <<Lit(s_1)>>), ASetvar(KS, "set", <<Mac("MATCHED_VAR_NAME", << >>)>>)>> }
@@ -225,7 +227,7 @@ ActsPicks(maxEntries, two, slice, slices) ==
   [acts : SliceOf(PerTargetActs, slice, slices), mm : BOOLEAN, ch : {"none"}, sev : {0 - 1}, p : {2}, acts2 : {<< >>}, p2 : {0},
    rq : SeqsUpTo(ActsEntries, maxEntries), post : {TRUE}, both : {TRUE}]
 ActsScen(pk) ==
-  MkScen(<<MkRule(5, 1, <<ActLink(<<ASetvar(<<Lit(s_k)>>, "set", <<Lit(s_2)>>), ASetvar(<<Lit(s_neg)>>, "set", <<Lit(s_m3)>>)>>)>>),
+  MkScen(<<[MkRule(5, 1, <<ActLink(<<ASetvar(<<Lit(s_k)>>, "set", <<Lit(s_2)>>), ASetvar(<<Lit(s_neg)>>, "set", <<Lit(s_m3)>>)>>)>>) EXCEPT !.msg = "m5"],
            ActsRule10(pk)>>
          \o (IF pk.p2 = 0 THEN << >> ELSE <<ActsRule20(pk)>>)
          \o <<[MkRule(90, 2, <<RuleLink(<<TK("TX", s_n)>>, << >>, OpLit("ge", s_2), FALSE, <<A("deny")>>)>>) EXCEPT !.sev = 3]>>,
